@@ -1,6 +1,8 @@
 package main
 
 import (
+	"crypto/sha256"
+	"encoding/hex"
 	"fmt"
 	"path"
 	"sort"
@@ -19,6 +21,8 @@ type Vars struct {
 	YName     int  // 0: dir/y.txt exists, 1: the same content is called dir/z.txt
 	W         bool // dir/w.txt present
 	K         int  // lib.dawn constant: index into kvals
+	KF        bool // the constant is written as a float of the same number (1 -> 1.0: equal under ==, prints differently)
+	Ord       bool // the entries of the global dict referenced by mid are written in the other order (equal under ==, iterates differently)
 	D         int  // default argument of leaf's function
 	H         int  // helper body version
 	G         int  // element of the global list referenced by mid
@@ -87,7 +91,11 @@ func (v Vars) render() map[string]string {
 	if v.C2 {
 		lib.WriteString("# a comment\n\n")
 	}
-	fmt.Fprintf(&lib, "K = %d\n", kvals[v.K])
+	if v.KF {
+		fmt.Fprintf(&lib, "K = %d.0\n", kvals[v.K])
+	} else {
+		fmt.Fprintf(&lib, "K = %d\n", kvals[v.K])
+	}
 	// a self-referential function below the comment toggle (its position moves with the comment)
 	lib.WriteString("def depth(n):\n    return 0 if n <= 0 else 1 + depth(n - 1)\n")
 	lib.WriteString("def helper(x):\n")
@@ -111,6 +119,11 @@ func (v Vars) render() map[string]string {
 		b.WriteString("\n# a comment and a blank line\n\n")
 	}
 	fmt.Fprintf(&b, "G = [1, %d]\n", 2+v.G)
+	if v.Ord {
+		b.WriteString("ORD = {\"b\": 2, \"a\": 1}\n")
+	} else {
+		b.WriteString("ORD = {\"a\": 1, \"b\": 2}\n")
+	}
 	fmt.Fprintf(&b, "closure = make(%d)\n", 7+v.V)
 	b.WriteString(`def _gen(t):
     step("gen")
@@ -119,7 +132,7 @@ func (v Vars) render() map[string]string {
 target(name="gen", function=_gen, sources=["src/a.txt"], generates=["gen/g.txt"]__ALWAYS__)
 def _mid(t):
     step("mid")
-    emit("out/mid", "mid:" + slurp("gen/g.txt") + ":" + listing("dir") + ":" + str(G[1]) + ":" + str(closure(1)))
+    emit("out/mid", "mid:" + slurp("gen/g.txt") + ":" + listing("dir") + ":" + str(G[1]) + ":" + str(closure(1)) + ":" + "".join(ORD.keys()))
 target(name="mid", function=_mid, sources=["gen/g.txt", "dir"])
 def _top(t):
     step("top")
@@ -187,9 +200,9 @@ func (v Vars) args() []string {
 func (v Vars) env(t string) string {
 	switch t {
 	case tGen:
-		return fmt.Sprintf("K%d H%d L%d", v.K, v.H, v.Late)
+		return fmt.Sprintf("K%d F%v H%d L%d", v.K, v.KF, v.H, v.Late)
 	case tMid:
-		return fmt.Sprintf("G%d V%d", v.G, v.V)
+		return fmt.Sprintf("G%d V%d O%v", v.G, v.V, v.Ord)
 	case tTop:
 		return fmt.Sprintf("E%v C%v", v.Edge, v.Chatty)
 	case tLeaf:
@@ -198,6 +211,26 @@ func (v Vars) env(t string) string {
 		return ""
 	}
 	panic(t)
+}
+
+// codeText identifies the code of the build files that define target t's function and the
+// helpers it loads, comments, blank lines and docstrings aside. The property (C02) promises no
+// re-execution after edits to OTHER packages' build files and after comment edits; an edit to
+// the code of a target's own build file may legitimately re-execute it even when the function
+// does not refer to what was edited (function code addresses the file's constant pool by index).
+func (v Vars) codeText(t string) string {
+	w := v
+	w.C1, w.C2, w.C3 = false, false, false
+	f := w.render()
+	var text string
+	switch t {
+	case tGen, tMid, tTop:
+		text = f["BUILD.dawn"] + "\x00" + f["lib.dawn"]
+	default:
+		text = f["pkg/BUILD.dawn"]
+	}
+	h := sha256.Sum256([]byte(text))
+	return hex.EncodeToString(h[:6])
 }
 
 // srcs returns the content of target t's declared sources (names and contents for directories).
